@@ -9,7 +9,7 @@ from gen_programs import Gen, Scope
 
 PID = "C02"
 MANIFEST = {
-    "text": "66 Coq theorems.  C02ALL round: C02's theorems now speak about the evaluator the ALL / TEXT-EVAL streams run "
+    "text": "70 Coq theorems.  C02ALL round: C02's theorems now speak about the evaluator the ALL / TEXT-EVAL streams run "
             "(EvalAll.binop_all o / builtin_all o: EVERY row of the regenerated built-in table and `^`, library behaviour as "
             "fields of the oracle record o), for EVERY oracle o: ops_wf / ops_nm / old-cells-untouched with NO hypothesis on o "
             "(the 17 new arms are pure and return a number, string or null; `^` is eval_binop with the oracle's powf), "
@@ -23,8 +23,13 @@ MANIFEST = {
             "clock reading), so the model forces no exclusion on eval-twice beyond 'both evaluations under the same oracle "
             "record'; with the clock advancing between the evaluations the statement is kept as the Prop "
             "C02_eval_twice_across_clock_full and REFUTED by `time_now()` (C02_eval_twice_across_clock_refuted) — the "
-            "documented behaviour of a clock, not a defect.  Still a Prop only: a positive across-clock theorem for "
-            "programs that never call time_now.  LET2 round: WEAKENING IS PROVED (C02_weakening, _impl, _generic; proofs/C02Weak.v): a binding "
+            "documented behaviour of a clock, not a defect.  POSITIVELY (proofs/C02AllClock.v): o_now is read by the arm of "
+            "time_now and by nothing else (C02_clock_read_by_one_arm); an Unmodelled outcome of an operator / built-in is "
+            "never swallowed by the evaluator (C02_unmodelled_never_swallowed: DepthMono.v's development with Unmodelled "
+            "for the depth error, generalised to two pairs of dispatchers); hence an evaluation that, with the time_now arm "
+            "poisoned, does not end in Unmodelled — i.e. never calls time_now — is the same under every clock reading "
+            "(C02_eval_same_under_every_clock), and eval-twice holds with the clock advancing between the two evaluations "
+            "when the second does not read it (C02_eval_twice_across_clock_noclock).  LET2 round: WEAKENING IS PROVED (C02_weakening, _impl, _generic; proofs/C02Weak.v): a binding "
             "of a name x that nothing mentions changes nothing — from scope chains that agree on every name other than x and "
             "the same store, an expression in which x does not occur (nocc: not as identifier, {x} key, assignment target or "
             "parameter) evaluates to the same outcome and store, the chains stay in agreement, and no value mentioning x "
